@@ -9,7 +9,6 @@ import (
 
 func (rt *runtime) cmplEvaluateNodeStatement(node nodeStatement) Value {
 	verifStep(rt)
-	rt.halting = false // evaluation goes on: whatever panicked before has been dealt with
 	// Allow interpreter interruption
 	// If the Interrupt channel is nil, then
 	// we avoid runtime.Gosched() overhead (if any)
